@@ -263,7 +263,7 @@ func wrapsParam(c *Ctx, name string) bool {
 // ---------------------------------------------------------------------------------------------------------------
 
 func checkLuma(c *Ctx, r *Report) {
-	r.Rule("T-LUMA", "the colour-to-luminance conversions map an opaque grey level g to g (in particular black to 0 and white to 255): NewRGBLuminanceSource on 0xRRGGBB ints (alpha byte ignored), NewLuminanceSourceFromImage on 16-bit RGBA values of the generic and RGBA64 branches; the Gray branch copies the sample", 3)
+	r.Rule("T-LUMA", "the colour-to-luminance conversion of NewRGBLuminanceSource maps an opaque grey level g, given as a 0xRRGGBB int (alpha byte ignored), to g - in particular black to 0 and white to 255 (the conversions of Go images are decided by S-IMGREAD)", 1)
 	greys := []int64{0, 1, 2, 127, 128, 200, 254, 255}
 	// --- RGB ints
 	key := "gozxing.NewRGBLuminanceSource"
@@ -312,97 +312,6 @@ func checkLuma(c *Ctx, r *Report) {
 		}
 	} else {
 		r.AnchorLost("T-LUMA", key, "constructor not found")
-	}
-	// --- Go images
-	fd, p := c.funcDeclOf("", "NewLuminanceSourceFromImage")
-	if fd == nil {
-		r.AnchorLost("T-LUMA", "gozxing.NewLuminanceSourceFromImage", "function not found")
-		return
-	}
-	r.Analysed("gozxing.NewLuminanceSourceFromImage")
-	var ts *ast.TypeSwitchStmt
-	ast.Inspect(fd.Body, func(n ast.Node) bool {
-		if x, ok := n.(*ast.TypeSwitchStmt); ok {
-			ts = x
-		}
-		return true
-	})
-	if ts == nil {
-		r.AnchorLost("T-LUMA", "gozxing.NewLuminanceSourceFromImage", "type switch over image kinds not found")
-		return
-	}
-	for ci, cl := range ts.Body.List {
-		cc := cl.(*ast.CaseClause)
-		name := "default"
-		if len(cc.List) > 0 {
-			name = exprString(cc.List[0])
-		}
-		key := "gozxing.NewLuminanceSourceFromImage/" + name
-		// innermost loop of the clause
-		var inner *ast.ForStmt
-		ast.Inspect(cc, func(n ast.Node) bool {
-			if l, ok := n.(*ast.ForStmt); ok {
-				inner = l
-			}
-			return true
-		})
-		if inner == nil {
-			r.Undecided("T-LUMA", key, c.pos(cc.Pos()), "no pixel loop in this branch")
-			continue
-		}
-		bad := ""
-		for _, g := range greys {
-			var stored *Val
-			h := &rpf{
-				stHook: func(rr *rpf, lhs ast.Expr, v *Val) bool { stored = v; return true },
-				multiHook: func(call *ast.CallExpr, callee types.Object) ([]*Val, bool) {
-					if fn, ok := callee.(*types.Func); ok && fn.Name() == "RGBA" {
-						v := g * 257
-						return []*Val{vint(v), vint(v), vint(v), vint(0xffff)}, true
-					}
-					return nil, false
-				},
-				selHook: func(rr *rpf, sel *ast.SelectorExpr) (*Val, bool) {
-					// img.GrayAt(x, y).Y
-					if sel.Sel.Name == "Y" {
-						if call, ok := ast.Unparen(sel.X).(*ast.CallExpr); ok {
-							if fn, ok := typeutil.Callee(p.TypesInfo, call).(*types.Func); ok && fn.Name() == "GrayAt" {
-								return vint(g), true
-							}
-						}
-					}
-					return nil, false
-				},
-			}
-			env := map[types.Object]*Val{}
-			// loop counters and the running index are irrelevant to the value: give them 0
-			ast.Inspect(fd.Body, func(n ast.Node) bool {
-				if as, ok := n.(*ast.AssignStmt); ok && as.Tok == token.DEFINE {
-					for _, l := range as.Lhs {
-						if o := identObj(p, l); o != nil && isIntT(o.Type()) {
-							if _, isLoopInit := as.Rhs[0].(*ast.SelectorExpr); isLoopInit || (len(as.Rhs) == 1 && isZeroConst(p, as.Rhs[0])) {
-								env[o] = vint(0)
-							}
-						}
-					}
-				}
-				return true
-			})
-			if err := foldLoopBodies(c, p, env, h, nil, inner); err != nil {
-				bad = "?" + err.Error()
-				break
-			}
-			if stored == nil || stored.K != VInt || stored.I != g {
-				bad = fmt.Sprintf("an opaque grey %d (16-bit %d) becomes luminance %v", g, g*257, valString(stored))
-				break
-			}
-		}
-		_ = ci
-		if bad != "" && bad[0] == '?' {
-			r.Undecided("T-LUMA", key, c.pos(cc.Pos()), bad[1:])
-		} else {
-			r.Check(bad == "", "T-LUMA", key, c.pos(cc.Pos()), bad)
-		}
 	}
 }
 
@@ -654,4 +563,225 @@ func allIntRhs(p *packages.Package, as *ast.AssignStmt) bool {
 		}
 	}
 	return true
+}
+
+// S-IMGREAD: which pixel of a Go image lands where in the luminance plane
+func checkImageRead(c *Ctx, r *Report) {
+	r.Rule("S-IMGREAD", "NewLuminanceSourceFromImage, folded as a whole on a model image whose bounds do not start at the origin (4 x 2 pixels from (2,3), each pixel an opaque grey of its own: 0, 1, 127, 128, 200, 254, 255, 2; an *image.Gray also offers its Pix / Stride / Rect fields, with a stride wider than a row) once for each branch of its type switch (*image.Gray, image.RGBA64Image, any other image): the source is 4 wide and 2 high, starts at (0,0) of a plane of that size, and cell (i, j) of the plane holds exactly the grey level of the image's pixel (Min.X + i, Min.Y + j) - black is 0, white 255, and every image type is read at its own coordinates, row by row", 3)
+	fd, p := c.funcDeclOf("", "NewLuminanceSourceFromImage")
+	if fd == nil {
+		r.AnchorLost("S-IMGREAD", "gozxing.NewLuminanceSourceFromImage", "function not found")
+		return
+	}
+	minX, minY, w, hgt := int64(2), int64(3), int64(4), int64(2)
+	levels := []int64{0, 1, 127, 128, 200, 254, 255, 2}
+	grey := func(x, y int64) int64 { return levels[(y-minY)*w+(x-minX)] }
+	pt := func(x, y int64) *Val {
+		return &Val{K: VStruct, Fields: map[string]*Val{"X": vint(x), "Y": vint(y)}}
+	}
+	for _, kind := range []string{"*image.Gray", "image.RGBA64Image", "default"} {
+		key := "gozxing.NewLuminanceSourceFromImage whole/" + kind
+		r.Analysed(key)
+		img := &Val{K: VStruct, Ptr: true, Fields: map[string]*Val{}}
+		stride := w + 2
+		if kind == "*image.Gray" {
+			// the exported fields of image.Gray, for code that reads the plane directly: rows of w samples, stride w+2
+			pix := &Val{K: VList}
+			for y := int64(0); y < hgt; y++ {
+				for x := int64(0); x < stride; x++ {
+					if x < w {
+						pix.L = append(pix.L, vint(grey(minX+x, minY+y)))
+					} else {
+						pix.L = append(pix.L, vint(255))
+					}
+				}
+			}
+			img.Fields["Pix"], img.Fields["Stride"] = pix, vint(stride)
+			img.Fields["Rect"] = &Val{K: VStruct, Fields: map[string]*Val{"Min": pt(minX, minY), "Max": pt(minX+w, minY+hgt)}}
+		}
+		bad := ""
+		px := func(rr *rpf, call *ast.CallExpr) (int64, bool) {
+			if len(call.Args) != 2 {
+				return 0, false
+			}
+			x, y := rr.expr(call.Args[0]), rr.expr(call.Args[1])
+			if x.K != VInt || y.K != VInt {
+				rpfFail("a pixel is read at coordinates that are not constants of the fold")
+			}
+			if x.I < minX || x.I >= minX+w || y.I < minY || y.I >= minY+hgt {
+				rpfFail("the pixel (%d, %d) is read, outside the image's bounds (%d,%d)-(%d,%d)", x.I, y.I, minX, minY, minX+w, minY+hgt)
+			}
+			return grey(x.I, y.I), true
+		}
+		h := &rpf{unroll: 10000, maxSteps: 200000}
+		h.assertHook = func(rr *rpf, ta *ast.TypeAssertExpr, v *Val) (bool, bool) {
+			if v != img {
+				return false, false
+			}
+			return exprString(ta.Type) == kind, true
+		}
+		h.callHook = func(rr *rpf, call *ast.CallExpr, callee types.Object) (*Val, bool) {
+			fn, ok := callee.(*types.Func)
+			if !ok {
+				return nil, false
+			}
+			switch fn.Name() {
+			case "Bounds":
+				return &Val{K: VStruct, Fields: map[string]*Val{"Min": pt(minX, minY), "Max": pt(minX+w, minY+hgt)}}, true
+			case "Dx":
+				return vint(w), true
+			case "Dy":
+				return vint(hgt), true
+			case "PixOffset":
+				if len(call.Args) == 2 {
+					if x, y := rr.expr(call.Args[0]), rr.expr(call.Args[1]); x.K == VInt && y.K == VInt {
+						return vint((y.I-minY)*stride + (x.I - minX)), true
+					}
+				}
+			case "GrayAt":
+				if g, ok := px(rr, call); ok {
+					return &Val{K: VStruct, Fields: map[string]*Val{"Y": vint(g)}}, true
+				}
+			}
+			return nil, false
+		}
+		h.multiHook = func(call *ast.CallExpr, callee types.Object) ([]*Val, bool) {
+			fn, ok := callee.(*types.Func)
+			if !ok || fn.Name() != "RGBA" {
+				return nil, false
+			}
+			// img.At(x, y).RGBA() / img.RGBA64At(x, y).RGBA()
+			sel, ok := call.Fun.(*ast.SelectorExpr)
+			if !ok {
+				return nil, false
+			}
+			inner, ok := ast.Unparen(sel.X).(*ast.CallExpr)
+			if !ok {
+				return nil, false
+			}
+			if g, ok := px(rpfCurrent, inner); ok {
+				v := g * 257
+				return []*Val{vint(v), vint(v), vint(v), vint(0xffff)}, true
+			}
+			return nil, false
+		}
+		res, err := c.rpfCall(fd, p, []*Val{img}, h)
+		switch {
+		case err != nil && (strings.Contains(err.Error(), "outside the image's bounds") || strings.Contains(err.Error(), "out of range")):
+			bad = err.Error()
+		case err != nil:
+			bad = "?" + err.Error()
+		case len(res) != 1 || res[0].K != VStruct:
+			bad = "?the fold does not return a luminance source value"
+		default:
+			// find the plane and the geometry through the nesting of embedded structs
+			var plane *Val
+			ints := map[string]int64{}
+			var walk func(v *Val, depth int)
+			walk = func(v *Val, depth int) {
+				if v == nil || depth > 4 {
+					return
+				}
+				switch v.K {
+				case VStruct:
+					for name, f := range v.Fields {
+						if f != nil && f.K == VInt {
+							ints[name] = f.I
+						}
+						if f != nil && f.K == VList && plane == nil && int64(len(f.L)) == w*hgt {
+							plane = f
+						}
+						walk(f, depth+1)
+					}
+				}
+			}
+			walk(res[0], 0)
+			if plane == nil {
+				bad = fmt.Sprintf("the source holds no plane of %d x %d cells", w, hgt)
+				break
+			}
+			for name, want := range map[string]int64{"Width": w, "Height": hgt, "dataWidth": w, "dataHeight": hgt, "left": 0, "top": 0} {
+				if got, ok := ints[name]; !ok || got != want {
+					bad = fmt.Sprintf("the source's %s is %v, expected %d for an image of %d x %d pixels", name, got, want, w, hgt)
+				}
+			}
+			for j := int64(0); j < hgt && bad == ""; j++ {
+				for i := int64(0); i < w && bad == ""; i++ {
+					cell := plane.L[j*w+i]
+					if cell.K != VInt || cell.I != grey(minX+i, minY+j) {
+						bad = fmt.Sprintf("cell (%d, %d) of the plane holds %s; the image's pixel (%d, %d) has grey level %d", i, j, valString(cell), minX+i, minY+j, grey(minX+i, minY+j))
+					}
+				}
+			}
+		}
+		reportFold(r, c, "S-IMGREAD", key, fd.Pos(), bad)
+	}
+}
+
+// S-YUVMIRROR: the mirrored planar-YUV view
+func checkYUVMirror(c *Ctx, r *Report) {
+	r.Rule("S-YUVMIRROR", "NewPlanarYUVLuminanceSource with reverseHorizontal set, folded from source with the in-place mirror it calls, on frames of 6 x 4 and 7 x 5 bytes that are all different and views narrower than the frame (3 x 2 at (1,1); 4 x 3 at (2,1); the full frame): every row of the view is reversed in place, every byte of the frame outside the view keeps its value, and without the flag nothing is written", 1)
+	fd, p := c.funcDeclOf("", "NewPlanarYUVLuminanceSource")
+	key := "gozxing.NewPlanarYUVLuminanceSource/mirror"
+	if fd == nil {
+		r.AnchorLost("S-YUVMIRROR", key, "constructor not found")
+		return
+	}
+	r.Analysed(key)
+	bad := ""
+	type cfg struct{ dw, dh, l, t, w, h int64 }
+	for _, cf := range []cfg{{6, 4, 1, 1, 3, 2}, {7, 5, 2, 1, 4, 3}, {6, 4, 0, 0, 6, 4}, {7, 5, 0, 2, 7, 3}} {
+		for _, rev := range []bool{true, false} {
+			frame := &Val{K: VList, Local: true}
+			for i := int64(0); i < cf.dw*cf.dh; i++ {
+				frame.L = append(frame.L, &Val{K: VInt, I: 10 + i, T: types.Typ[types.Uint8]})
+			}
+			h := &rpf{unroll: 10000, maxSteps: 200000, effectCalls: true}
+			h.callHook = func(rr *rpf, call *ast.CallExpr, callee types.Object) (*Val, bool) {
+				return errCtorHook(rr, call, callee)
+			}
+			res, err := c.rpfCall(fd, p, []*Val{frame, vint(cf.dw), vint(cf.dh), vint(cf.l), vint(cf.t), vint(cf.w), vint(cf.h), vbool(rev)}, h)
+			what := fmt.Sprintf("frame %dx%d, view %dx%d at (%d,%d), reverseHorizontal=%v", cf.dw, cf.dh, cf.w, cf.h, cf.l, cf.t, rev)
+			if err != nil {
+				if strings.Contains(err.Error(), "out of range") {
+					bad = what + ": " + err.Error() + " - a run-time panic"
+				} else {
+					bad = "?" + what + ": " + err.Error()
+				}
+				break
+			}
+			if len(res) != 2 || res[1].K != VNil {
+				bad = what + ": refused"
+				break
+			}
+			got, ok := listInts(frame)
+			if !ok || int64(len(got)) != cf.dw*cf.dh {
+				bad = "?" + what + ": the frame is no longer a list of constants"
+				break
+			}
+			for y := int64(0); y < cf.dh && bad == ""; y++ {
+				for x := int64(0); x < cf.dw; x++ {
+					want := 10 + y*cf.dw + x
+					if rev && y >= cf.t && y < cf.t+cf.h && x >= cf.l && x < cf.l+cf.w {
+						want = 10 + y*cf.dw + (cf.l + cf.l + cf.w - 1 - x)
+					}
+					if got[y*cf.dw+x] != want {
+						if y >= cf.t && y < cf.t+cf.h && x >= cf.l && x < cf.l+cf.w {
+							bad = fmt.Sprintf("%s: byte (%d,%d) of the frame, inside the view, is %d afterwards; expected %d", what, x, y, got[y*cf.dw+x], want)
+						} else {
+							bad = fmt.Sprintf("%s: byte (%d,%d) of the frame, outside the view, is changed from %d to %d", what, x, y, want, got[y*cf.dw+x])
+						}
+						break
+					}
+				}
+			}
+			if bad != "" {
+				break
+			}
+		}
+		if bad != "" {
+			break
+		}
+	}
+	reportFold(r, c, "S-YUVMIRROR", key, fd.Pos(), bad)
 }
